@@ -4,15 +4,18 @@ import TxdbusModel.Route.Spec
 /-
 C14 x C12 (extension 2026-09-30) - specification side for the full rule language.
 
-"A broadcast signal reaches exactly the connections that hold a rule matching it": *matching* is C12's
-specification `Route.Spec.specMatches` (type, interface, member, path, destination, path_namespace, argN,
-argNpath - written from the "Match Rules" section of the DBus specification; it ignores `sender`, which
-txdbus stores and never evaluates: known finding `sender-constraint-ignored`), evaluated on what a match
-rule can see of the bus's message object (`ruleView`).  `arg0namespace` is not part of C12's specification
-(C12's property statement does not list it); the DBus specification's clause for it is added here
-(`arg0InNamespace`) and is part of the relation exactly when the router evaluates the constraint
-(`evalArg0 = true`: the router after fixes/C14-05; `false`: txdbus as found, where the constraint - like
-`sender` - is stored and ignored: finding `arg0namespace-constraint-ignored`).
+"A broadcast signal reaches exactly the connections that hold a rule matching it": *matching* is ONE fixed
+relation, independent of what the router of the tree under test evaluates - the rule language of the DBus
+specification: C12's `Route.Spec.specMatchesFull` (type, interface, member, path, destination, path_namespace, argN,
+argNpath, arg0namespace - written from the "Match Rules" section; it never looks at txdbus) on what a rule can
+see of the bus's message object (`ruleView`), AND the `sender` clause, which only a bus can evaluate: the message's
+true sender is the unique name the rule names, or the unique name of the connection that owns the well-known
+name it names (`ownerName`, a parameter: the name table is C13's).
+
+txdbus evaluates neither `sender` (known finding `sender-constraint-ignored`) nor - as found - `arg0namespace`
+(finding `arg0namespace-constraint-ignored`, fixes/C14-05).  The theorems therefore carry EXPLICIT hypotheses on
+the held rules (`FullRule.InSpec`): no `sender` constraint; no `arg0namespace` constraint unless the router
+evaluates it.  Outside them the statement is false for txdbus, and the witness theorems say so.
 
 Also here: the order notions for broadcasts.  Core Lean only.
 -/
@@ -20,23 +23,40 @@ namespace Txdbus.BusRoute
 
 open Txdbus.Route (Str Arg RuleArgs)
 
-/-- DBus specification, `arg0namespace`: "the first argument is of type STRING, and is a bus name or interface
-name within the specified namespace" - the value itself, or the value followed by '.' and more. -/
-def arg0InNamespace (v : Txdbus.Route.Msg) (ns : Str) : Bool :=
-  match v.arg? 0 with
-  | some (.str a) => a == ns || (ns ++ ['.']).isPrefixOf a
+/-- The `sender` clause of a match rule, as a bus evaluates it: the true sender of the message is the unique name
+`s`, or the unique name of the current owner of the well-known name `s`. -/
+def senderIs (ownerName : Str → Option Str) (v : Txdbus.Route.Msg) (s : Str) : Bool :=
+  if s.head? = some ':' then v.sender == .some s
+  else
+    match ownerName s with
+    | some u => v.sender == .some u
+    | none => false
+
+/-- The matching relation of the property: the message satisfies EVERY constraint of the rule - C12's
+`specMatchesFull` (all keys of the DBus rule language but `sender`) and the sender clause. -/
+def busSpecMatches (ownerName : Str → Option Str) (a : RuleArgs) (v : Txdbus.Route.Msg) : Bool :=
+  Txdbus.Route.Spec.specMatchesFull a v && Txdbus.Route.Spec.optAll a.sender (senderIs ownerName v)
+
+/-! ### the bus's own signals
+
+What the name functions make the bus send (`Effect.signalTo` to one connection, `Effect.broadcast` through the match
+rules - NameOwnerChanged) as the SPECIFICATION has it: a broadcast goes, once per held rule it satisfies, to the
+holders, the held rules being those of the history (`heldAfter`). -/
+
+/-- A delivery whose payload is a signal built by the bus. -/
+def Delivery.isSig (dl : Delivery) : Bool :=
+  match dl.what with
+  | .busSignal _ => true
   | _ => false
 
-/-- The matching relation of the bus: C12's `specMatches`, and the `arg0namespace` clause when the router
-evaluates that constraint. -/
-def busSpecMatches (evalArg0 : Bool) (a : RuleArgs) (v : Txdbus.Route.Msg) : Bool :=
-  Txdbus.Route.Spec.specMatches a v &&
-    (!evalArg0 || Txdbus.Route.Spec.optAll a.arg0ns (arg0InNamespace v))
-
-/-- For txdbus as found the relation IS C12's `specMatches`. -/
-theorem busSpecMatches_false (a : RuleArgs) (v : Txdbus.Route.Msg) :
-    busSpecMatches false a v = Txdbus.Route.Spec.specMatches a v := by
-  simp [busSpecMatches]
+def specEffectDeliveries (ownerName : Str → Option Str) (held : List (ConnId × RuleArgs))
+    (nameOfConn : ConnId → Option Name) : Effect → List Delivery
+  | .setOwner _ _ => []
+  | .unsetOwner _ => []
+  | .signalTo j member body args => [⟨j, .busSignal (busSignalMsg member body args (nameOfConn j))⟩]
+  | .broadcast member body args =>
+      let m := busSignalMsg member body args none
+      (held.filter (fun e => busSpecMatches ownerName e.2 (ruleView m))).map (fun e => ⟨e.1, .busSignal m⟩)
 
 /-! ### order of broadcasts
 
